@@ -48,6 +48,15 @@ def build_checked(node):
                 break
         raise Violation(f'construction-raised|{culprit["op"]}',
                         f'building {progs.show(culprit)} raised {observe.describe_exc(e)}')
+    # looking at a pipeline (what an interactive session or a logger does) is not a use of it: whatever repr() and
+    # str() do, every observation afterwards must be what it would have been without them
+    for look in (repr, str):
+        try:
+            look(ds)
+        except observe.PASS_THROUGH:
+            raise
+        except BaseException:
+            pass
     return ds, env
 
 
